@@ -56,126 +56,140 @@ func hashEq(a, b *data.ContentHash) bool {
 func runC15(a Args) Result {
 	rep := &eng.Reporter{ReplayDir: a.ReplayDir}
 	cov := map[string]interface{}{}
-	app := chain.NewApp(chain.Options{})
-	e := eng.New(app, rep, false)
-	e.SeedTag = fmt.Sprintf("s%d-w%d", a.Seed, a.Worker)
-	rng := rand.New(rand.NewSource(a.Seed*1000003 + int64(a.Worker)*7919 + 15))
 	anchored, queries, unanch, families, rejected := 0, 0, 0, 0, 0
 	nontrivial := map[string]bool{}
 	var samples []interface{}
 	var errs []string
-	func() {
-		defer func() {
-			if r := recover(); r != nil {
-				errs = append(errs, fmt.Sprint(r))
+	weakAnchored := 0
+	// two passes: the production ID hasher, and a weak one (4 distinct outputs) that forces compact-ID
+	// collisions between different IRIs — queries must still answer for exactly the content hash asked
+	for pass, hname := range []string{"", "mod4"} {
+		app := chain.NewApp(chain.Options{Hasher: HasherByName(hname)})
+		e := eng.New(app, rep, false)
+		e.HasherID = hname
+		e.SeedTag = fmt.Sprintf("s%d-w%d-%s", a.Seed, a.Worker, hname)
+		rng := rand.New(rand.NewSource(a.Seed*1000003 + int64(a.Worker)*7919 + 15 + int64(pass)))
+		anchoredBefore := anchored
+		func() {
+			defer func() {
+				if r := recover(); r != nil {
+					errs = append(errs, fmt.Sprint(r))
+				}
+			}()
+			if err := e.Init(gen.Genesis(app, "default"), gen.GenesisTime); err != nil {
+				errs = append(errs, err.Error())
+				return
+			}
+			now := gen.GenesisTime.Add(5 * time.Second)
+			e.NextBlock(now)
+			type rec struct {
+				h   *data.ContentHash
+				iri string
+				t   time.Time
+			}
+			byIRI := map[string]*rec{}
+			var all []*rec
+			var skipped []*data.ContentHash // valid siblings deliberately NOT anchored
+			sender := gen.ActorAddr(0).String()
+			target := anchoredBefore + a.Steps
+			if pass == 1 {
+				target = anchoredBefore + a.Steps/3
+			}
+			for anchored < target {
+				fam := irimon.Family(rng)
+				families++
+				valid := irimon.OnlyValid(fam)
+				rejected += len(fam) - len(valid)
+				for i, h := range valid {
+					iri, err := h.ToIRI()
+					if err != nil {
+						continue
+					}
+					// every fourth valid sibling is left un-anchored: a query for it must find nothing
+					if i > 0 && rng.Intn(4) == 0 {
+						if _, dup := byIRI[iri]; !dup {
+							skipped = append(skipped, h)
+						}
+						continue
+					}
+					r := e.Exec(eng.Tx{Msgs: []sdk.Msg{&data.MsgAnchor{Sender: sender, ContentHash: h}}, Tag: "anchor-sibling"})
+					if r == nil || !r.OK {
+						e.Violate("C15", "valid-hash-not-anchored", fmt.Sprintf("a content hash that passes Validate could not be anchored: %v", irimon.Describe(h)))
+						continue
+					}
+					if o, dup := byIRI[iri]; dup {
+						if !hashEq(o.h, h) {
+							e.Violate("C15", "injectivity", fmt.Sprintf("two different valid content hashes share the IRI %s: %v and %v", iri, irimon.Describe(o.h), irimon.Describe(h)))
+						}
+						continue
+					}
+					rc := &rec{h, iri, now}
+					byIRI[iri] = rc
+					all = append(all, rc)
+					anchored++
+					if len(valid) >= 3 {
+						nontrivial[iri] = true
+					}
+				}
+				if families%7 == 0 {
+					now = now.Add(time.Duration(1+rng.Intn(50)) * time.Second)
+					e.NextBlock(now)
+				}
+			}
+			e.Commit()
+			// the table has exactly one id per distinct valid hash
+			if n := len(e.Cur.V().DataIDs); n != len(all) {
+				e.Violate("C15", "table-count", fmt.Sprintf("%d distinct valid content hashes were anchored but the DataID table has %d rows", len(all), n))
+			}
+			for _, rc := range all {
+				var r1 data.ConvertHashToIRIResponse
+				if err := app.Query("/regen.data.v2.Query/ConvertHashToIRI", &data.ConvertHashToIRIRequest{ContentHash: rc.h}, &r1); err != nil || r1.Iri != rc.iri {
+					e.Violate("C15", "query-hash-to-iri", fmt.Sprintf("ConvertHashToIRI(%v) = %q (err %v), expected %q", irimon.Describe(rc.h), r1.Iri, err, rc.iri))
+				}
+				var r2 data.ConvertIRIToHashResponse
+				if err := app.Query("/regen.data.v2.Query/ConvertIRIToHash", &data.ConvertIRIToHashRequest{Iri: rc.iri}, &r2); err != nil || !hashEq(r2.ContentHash, rc.h) {
+					e.Violate("C15", "query-iri-to-hash", fmt.Sprintf("ConvertIRIToHash(%q) = %v (err %v), expected %v", rc.iri, irimon.Describe(r2.ContentHash), err, irimon.Describe(rc.h)))
+				}
+				var r3 data.QueryAnchorByHashResponse
+				if err := app.Query("/regen.data.v2.Query/AnchorByHash", &data.QueryAnchorByHashRequest{ContentHash: rc.h}, &r3); err != nil || r3.Anchor == nil || r3.Anchor.Iri != rc.iri || !hashEq(r3.Anchor.ContentHash, rc.h) {
+					e.Violate("C15", "query-anchor-by-hash", fmt.Sprintf("AnchorByHash(%v) answered %+v (err %v), expected the anchor of %q", irimon.Describe(rc.h), r3.Anchor, err, rc.iri))
+				} else if r3.Anchor.Timestamp == nil || !time.Unix(r3.Anchor.Timestamp.Seconds, int64(r3.Anchor.Timestamp.Nanos)).UTC().Equal(rc.t) {
+					e.Violate("C15", "query-anchor-timestamp", fmt.Sprintf("AnchorByHash(%q) timestamp %v, anchored at %s", rc.iri, r3.Anchor.Timestamp, rc.t))
+				}
+				var r4 data.QueryAnchorByIRIResponse
+				if err := app.Query("/regen.data.v2.Query/AnchorByIRI", &data.QueryAnchorByIRIRequest{Iri: rc.iri}, &r4); err != nil || r4.Anchor == nil || r4.Anchor.Iri != rc.iri || !hashEq(r4.Anchor.ContentHash, rc.h) {
+					e.Violate("C15", "query-anchor-by-iri", fmt.Sprintf("AnchorByIRI(%q) answered %+v (err %v)", rc.iri, r4.Anchor, err))
+				}
+				queries += 4
+				if len(samples) < 3 {
+					samples = append(samples, map[string]interface{}{"hash": irimon.Describe(rc.h), "iri": rc.iri, "anchored_at": rc.t.Format(time.RFC3339)})
+				}
+			}
+			// un-anchored siblings: a query must never return the anchor of a different hash
+			for _, h := range skipped {
+				iri, _ := h.ToIRI()
+				if _, ok := byIRI[iri]; ok {
+					continue // anchored later through another family
+				}
+				unanch++
+				var r3 data.QueryAnchorByHashResponse
+				err := app.Query("/regen.data.v2.Query/AnchorByHash", &data.QueryAnchorByHashRequest{ContentHash: h}, &r3)
+				if err == nil && r3.Anchor != nil {
+					e.Violate("C15", "query-answers-for-other-hash", fmt.Sprintf("AnchorByHash of the never-anchored %v answered with the anchor %q of different data", irimon.Describe(h), r3.Anchor.Iri))
+				}
+				var r4 data.QueryAnchorByIRIResponse
+				err = app.Query("/regen.data.v2.Query/AnchorByIRI", &data.QueryAnchorByIRIRequest{Iri: iri}, &r4)
+				if err == nil && r4.Anchor != nil {
+					e.Violate("C15", "query-answers-for-other-hash", fmt.Sprintf("AnchorByIRI of the never-anchored %q answered with an anchor", iri))
+				}
+				queries += 2
 			}
 		}()
-		if err := e.Init(gen.Genesis(app, "default"), gen.GenesisTime); err != nil {
-			errs = append(errs, err.Error())
-			return
+		if pass == 1 {
+			weakAnchored = anchored - anchoredBefore
 		}
-		now := gen.GenesisTime.Add(5 * time.Second)
-		e.NextBlock(now)
-		type rec struct {
-			h   *data.ContentHash
-			iri string
-			t   time.Time
-		}
-		byIRI := map[string]*rec{}
-		var all []*rec
-		var skipped []*data.ContentHash // valid siblings deliberately NOT anchored
-		sender := gen.ActorAddr(0).String()
-		target := a.Steps
-		for anchored < target {
-			fam := irimon.Family(rng)
-			families++
-			valid := irimon.OnlyValid(fam)
-			rejected += len(fam) - len(valid)
-			for i, h := range valid {
-				iri, err := h.ToIRI()
-				if err != nil {
-					continue
-				}
-				// every fourth valid sibling is left un-anchored: a query for it must find nothing
-				if i > 0 && rng.Intn(4) == 0 {
-					if _, dup := byIRI[iri]; !dup {
-						skipped = append(skipped, h)
-					}
-					continue
-				}
-				r := e.Exec(eng.Tx{Msgs: []sdk.Msg{&data.MsgAnchor{Sender: sender, ContentHash: h}}, Tag: "anchor-sibling"})
-				if r == nil || !r.OK {
-					e.Violate("C15", "valid-hash-not-anchored", fmt.Sprintf("a content hash that passes Validate could not be anchored: %v", irimon.Describe(h)))
-					continue
-				}
-				if o, dup := byIRI[iri]; dup {
-					if !hashEq(o.h, h) {
-						e.Violate("C15", "injectivity", fmt.Sprintf("two different valid content hashes share the IRI %s: %v and %v", iri, irimon.Describe(o.h), irimon.Describe(h)))
-					}
-					continue
-				}
-				rc := &rec{h, iri, now}
-				byIRI[iri] = rc
-				all = append(all, rc)
-				anchored++
-				if len(valid) >= 3 {
-					nontrivial[iri] = true
-				}
-			}
-			if families%7 == 0 {
-				now = now.Add(time.Duration(1+rng.Intn(50)) * time.Second)
-				e.NextBlock(now)
-			}
-		}
-		e.Commit()
-		// the table has exactly one id per distinct valid hash
-		if n := len(e.Cur.V().DataIDs); n != len(all) {
-			e.Violate("C15", "table-count", fmt.Sprintf("%d distinct valid content hashes were anchored but the DataID table has %d rows", len(all), n))
-		}
-		for _, rc := range all {
-			var r1 data.ConvertHashToIRIResponse
-			if err := app.Query("/regen.data.v2.Query/ConvertHashToIRI", &data.ConvertHashToIRIRequest{ContentHash: rc.h}, &r1); err != nil || r1.Iri != rc.iri {
-				e.Violate("C15", "query-hash-to-iri", fmt.Sprintf("ConvertHashToIRI(%v) = %q (err %v), expected %q", irimon.Describe(rc.h), r1.Iri, err, rc.iri))
-			}
-			var r2 data.ConvertIRIToHashResponse
-			if err := app.Query("/regen.data.v2.Query/ConvertIRIToHash", &data.ConvertIRIToHashRequest{Iri: rc.iri}, &r2); err != nil || !hashEq(r2.ContentHash, rc.h) {
-				e.Violate("C15", "query-iri-to-hash", fmt.Sprintf("ConvertIRIToHash(%q) = %v (err %v), expected %v", rc.iri, irimon.Describe(r2.ContentHash), err, irimon.Describe(rc.h)))
-			}
-			var r3 data.QueryAnchorByHashResponse
-			if err := app.Query("/regen.data.v2.Query/AnchorByHash", &data.QueryAnchorByHashRequest{ContentHash: rc.h}, &r3); err != nil || r3.Anchor == nil || r3.Anchor.Iri != rc.iri || !hashEq(r3.Anchor.ContentHash, rc.h) {
-				e.Violate("C15", "query-anchor-by-hash", fmt.Sprintf("AnchorByHash(%v) answered %+v (err %v), expected the anchor of %q", irimon.Describe(rc.h), r3.Anchor, err, rc.iri))
-			} else if r3.Anchor.Timestamp == nil || !time.Unix(r3.Anchor.Timestamp.Seconds, int64(r3.Anchor.Timestamp.Nanos)).UTC().Equal(rc.t) {
-				e.Violate("C15", "query-anchor-timestamp", fmt.Sprintf("AnchorByHash(%q) timestamp %v, anchored at %s", rc.iri, r3.Anchor.Timestamp, rc.t))
-			}
-			var r4 data.QueryAnchorByIRIResponse
-			if err := app.Query("/regen.data.v2.Query/AnchorByIRI", &data.QueryAnchorByIRIRequest{Iri: rc.iri}, &r4); err != nil || r4.Anchor == nil || r4.Anchor.Iri != rc.iri || !hashEq(r4.Anchor.ContentHash, rc.h) {
-				e.Violate("C15", "query-anchor-by-iri", fmt.Sprintf("AnchorByIRI(%q) answered %+v (err %v)", rc.iri, r4.Anchor, err))
-			}
-			queries += 4
-			if len(samples) < 3 {
-				samples = append(samples, map[string]interface{}{"hash": irimon.Describe(rc.h), "iri": rc.iri, "anchored_at": rc.t.Format(time.RFC3339)})
-			}
-		}
-		// un-anchored siblings: a query must never return the anchor of a different hash
-		for _, h := range skipped {
-			iri, _ := h.ToIRI()
-			if _, ok := byIRI[iri]; ok {
-				continue // anchored later through another family
-			}
-			unanch++
-			var r3 data.QueryAnchorByHashResponse
-			err := app.Query("/regen.data.v2.Query/AnchorByHash", &data.QueryAnchorByHashRequest{ContentHash: h}, &r3)
-			if err == nil && r3.Anchor != nil {
-				e.Violate("C15", "query-answers-for-other-hash", fmt.Sprintf("AnchorByHash of the never-anchored %v answered with the anchor %q of different data", irimon.Describe(h), r3.Anchor.Iri))
-			}
-			var r4 data.QueryAnchorByIRIResponse
-			err = app.Query("/regen.data.v2.Query/AnchorByIRI", &data.QueryAnchorByIRIRequest{Iri: iri}, &r4)
-			if err == nil && r4.Anchor != nil {
-				e.Violate("C15", "query-answers-for-other-hash", fmt.Sprintf("AnchorByIRI of the never-anchored %q answered with an anchor", iri))
-			}
-			queries += 2
-		}
-	}()
+	}
+	cov["hashes_anchored_with_colliding_ids"] = weakAnchored
 	cov["evaluations"] = queries + anchored
 	cov["hashes_anchored_on_chain"] = anchored
 	cov["families_generated"] = families
